@@ -5,7 +5,10 @@
 #define RS_LISTS_PRE(asz, bsz)                                             \
 	((g_qa.n == 0 || __CPROVER_is_fresh(g_qa.head, (asz))) &&             \
 	    (g_qb.n == 0 || __CPROVER_is_fresh(g_qb.head, (bsz))) && VP_AIOQS_OK)
-#define RS_TTL_OK(s) ((s)->ttl.v >= 1 && (s)->ttl.v <= NNI_MAX_MAX_TTL)
+#ifndef RS_TTLMAX
+#define RS_TTLMAX NNI_MAX_MAX_TTL
+#endif
+#define RS_TTL_OK(s) ((s)->ttl.v >= 1 && (s)->ttl.v <= RS_TTLMAX)
 #define RS_BT(ctx) ((uint8_t *) (ctx)->btrace)
 #define RS_BTCAP ((size_t) (NNI_MAX_MAX_TTL + 1) * 4)
 #endif
